@@ -240,6 +240,60 @@ impl Prop for Order {
             }
         }
         ensure_eq!("c03.nanos_since_sign", format!("sign of nanos_since for {}", what), ws, since[8]);
+        // an operand that is the result of a mutator (clear_until_* in its own zone) is a value like
+        // any other: ordered by its instant, equal to a freshly built value of the same instant
+        if !edge {
+            let until = 3 + ((c.a.ns as u64 ^ c.b.day as u64 ^ (c.oa as u64)) % 6) as usize;
+            let unit: i128 = [tl::DAY_NS, 3_600 * tl::NS, 60 * tl::NS, tl::NS, 1_000_000, 1_000][until - 3];
+            let la = ia + c.oa as i128 * tl::NS;
+            let wl = la.div_euclid(unit) * unit;
+            let wa = wl - c.oa as i128 * tl::NS;
+            let wday = wa.div_euclid(tl::DAY_NS) as i64;
+            if tl::representable(la) && tl::representable(wl) && wday > cal::MIN_DAY + 3 && wday < cal::MAX_DAY - 3 {
+                let r = catch(|| {
+                    let a = mk_dt_off(ia, c.oa);
+                    let a2 = match until {
+                        3 => a.clear_until_hour(),
+                        4 => a.clear_until_minute(),
+                        5 => a.clear_until_second(),
+                        6 => a.clear_until_milli(),
+                        7 => a.clear_until_micro(),
+                        _ => a.clear_until_nano(),
+                    };
+                    let b = mk_dt_off(ib, c.ob);
+                    let fresh = mk_dt_off(wa, c.ob);
+                    (rd_dt(&a2), a2.cmp(&b), b.cmp(&a2), a2 == fresh, fresh == a2, a2.cmp(&fresh), a2 <= fresh, a2 >= fresh, a2 < fresh, a2 > fresh, sgn(a2.nanos_since(&b)))
+                });
+                match r {
+                    Err(p) => return fail("c03.order_panic", "comparisons of a clear_until_* result return", p.short()),
+                    Ok((got, cmp, rcmp, eq, eq2, cmpf, le, ge, lt, gt, sn)) => {
+                        if got == wa {
+                            cx.nt("operand_is_the_result_of_clear_until");
+                            if wa.rem_euclid(tl::DAY_NS) == 0 && c.oa != 0 {
+                                cx.nt("cleared_operand_on_utc_midnight_in_another_zone");
+                            }
+                            let what2 = format!("[{} [{}]].clear_until(#{}) = {} vs {} [{}]", fmt_instant(ia), c.oa, until, fmt_instant(wa), fmt_instant(ib), c.ob);
+                            let w2 = wa.cmp(&ib);
+                            ensure_eq!("c03.cmp_of_mutator_result", format!("cmp of {}", what2), (w2, w2.reverse()), (cmp, rcmp));
+                            ensure_eq!(
+                                "c03.mutator_result_vs_fresh_value",
+                                format!("(==, ==, cmp, <=, >=, <, >) of {} against a freshly built value of the same instant", what2),
+                                (true, true, Ordering::Equal, true, true, false, false),
+                                (eq, eq2, cmpf, le, ge, lt, gt)
+                            );
+                            let ws2 = match w2 {
+                                Ordering::Less => -1,
+                                Ordering::Equal => 0,
+                                Ordering::Greater => 1,
+                            };
+                            ensure_eq!("c03.nanos_since_sign", format!("sign of nanos_since for {}", what2), ws2, sn);
+                        } else {
+                            cx.label("clear_until_result_differs_from_the_model(left_to_C09)");
+                        }
+                    }
+                }
+            }
+        }
         // Date order = day order
         let r = catch(|| {
             let da = mk_date(c.a.day);
